@@ -30,10 +30,22 @@ META = {
     "non-nearest resampling (fill claim only).",
     "note": "Trusted: Lean kernel + {propext, Classical.choice, Quot.sound}; the GDAL nearest-neighbour "
     "reference semantics (samplePix/gdalNearest/effNodata/initVal, validated against rasterio every run); "
-    "dependency completeness of grid_intersect is a hypothesis (property C12) and is exercised, not proved, "
-    "here; cross-CRS and non-nearest resampling are covered by the oracle only (fill claim + value equality "
-    "at unambiguous pixels); IEEE rounding not modelled.  Two defects repaired on fix-C13 (F10 NaN default, "
-    "boolean nodata stretching); as-found behaviour proved defective on witnesses (…_cex).",
+    "same-CRS linear path: dependency completeness is PROVED through the C12 model (Props/C13C12: unsnapped, "
+    "snapped translation, snapped scale under the drift bound |a-a'|*dstW+|c-c'| <= |a'|/4; K17/K23 are the "
+    "real-code violations outside the bound); rotated / cross-CRS: chunked==whole is proved with the "
+    "transformer as a parameter (Props/C13P) under the single named hypothesis FootprintsSuperset; N-d arrays "
+    "(any ydim, any chunk tables) are proved plane by plane (Props/C13Nd).  NOT MODELLED (inventory of the "
+    "anchor files): GDAL's approximate transformer and every non-nearest resampling kernel (oracle: fill claim "
+    "only); IEEE rounding (non-dyadic placements are oracle-only: lindeps would need a float-rounding model of "
+    "affine multiplication/inversion); _xr_interop._xr_reproject_da beyond nodata defaulting and dask/numpy "
+    "dispatch (attrs, coords, dims, encoding, maybe_int(dst_nodata), output_geobox / _extract_output_geobox_params, "
+    "xr_reproject(Dataset) mapping over variables, GCPGeoBox sources); warp.py: warp_affine / warp_affine_rio, "
+    "resampling_s2rio / is_resampling_nn, the XSCALE/YSCALE kwarg injection, int8->int16 copy-back detail; "
+    "_blocks.py: BlockAssembler._verify_shape errors, _norm_roi / extract with partial rois and int indices, "
+    "dtype promotion (_find_common_type), casting=; _dask.py: dtype= / casting= / name= / **kwargs pass-through, "
+    "graph naming (uuid4), HighLevelGraph wiring beyond the task-level executor model; geobox.py: "
+    "grid_intersect's footprint computation (footprint(4326, 2), to_crs, shapely disjoint) — parameters of C12's "
+    "general-path model; GeoBox.compute_crop for geometry/bbox rois.",
     "technique": "Lean 4 proof over hand model + differential correspondence with real code",
     "design_ref": "DESIGN.md §4 C13",
 }
@@ -838,6 +850,43 @@ def zoom_one(R: Run, ns, cj):
     return okall
 
 
+K23 = "chunked-differs-from-whole:scale-snapped-on-huge-raster"
+
+
+def scale_snap_probe(R: Run, ns):
+    """deterministic witness of known finding K23: a 2^21 px wide raster whose relative scale 1 + 2^-21 is snapped
+    to 1 by snap_affine (stol = 1e-6) before the chunk dependencies are computed"""
+    W, C = 2**21, 4096
+    cj = {"kind": "scale-snap", "W": W, "chunk": C, "scale": "1+2^-21"}
+    try:
+        src = (np.arange(W + C, dtype="int64") // C % 100 + 1).astype("int16")[None, :]
+        sg = ns.GeoBox((1, W + C), ns.Affine(1, 0, 0, 0, 1, 0), CRS)
+        dg = ns.GeoBox((1, W + 8), ns.Affine(1 + 2.0**-21, 0, 0, 0, 1, 0), CRS)
+        whole = ns.xr_reproject(ns.wrap_xr(src, sg, nodata=-1), dg).values
+        chunked = ns.xr_reproject(ns.wrap_xr(ns.da.from_array(src, chunks=(1, C)), sg, nodata=-1), dg,
+                                  chunks=(1, C)).data.compute(scheduler="synchronous")
+    except Exception as e:  # pylint: disable=broad-except
+        R.oracle(False, "reproject-raises", cj, f"{type(e).__name__}: {e}", sig="scale-snap")
+        return
+    diff = (whole != chunked)[0]
+    key, what = "chunked-differs-from-whole", ""
+    if diff.any():
+        x = np.nonzero(diff)[0].astype("int64")
+        # exact mapped centre: px = (2x+1)(2^21+1) / 2^22
+        num = (2 * x + 1) * (W + 1)
+        px = num / float(2**22)
+        drift = x * 2.0**-21
+        m = np.mod(px, C)
+        near = np.minimum(m, C - m) <= drift + 1e-3
+        # guard: |scale - snapped scale| < 1e-6 (2^-21), drift over the raster >= 1/4 px, every differing pixel within
+        # its own drift of a source-chunk boundary
+        if 2.0**-21 < 1e-6 and (W + 8) * 2.0**-21 >= 0.25 and bool(near.all()):
+            key = K23
+        what = (f"{int(diff.sum())} pixels differ, first column {int(x[0])} last {int(x[-1])}: chunked="
+                f"{chunked[0, x[0]]} whole={whole[0, x[0]]} (1 x {W + 8} destination with scale 1+2^-21, chunks (1,{C}))")
+    R.oracle(not diff.any(), key, cj, what, sig="scale-snap|K23")
+
+
 def zoom_stream(R: Run, ns, rng, n):
     # deterministic witness of known finding K17 (always in the quick tier)
     w = {"sh": 4, "sw": 4, "dh": 2, "dw": 2056, "S": (F(2048), F(0), F(0), F(0), F(2048), F(0)),
@@ -845,6 +894,7 @@ def zoom_stream(R: Run, ns, rng, n):
          "shift": [2.0 ** -11, 0.0]}
     w["A"] = amul(ainv(w["S"]), w["D"])
     zoom_one(R, ns, {"kind": "zoom", "case": case_json(w), "dtype": "int16", "attr": -1, "sched": "sync", "sseed": 0})
+    scale_snap_probe(R, ns)
     for i in range(n):
         if i % 25 == 24:
             case = gen_zoom(rng, N=rng.choice([1024, 2048, 4096]), shift=rng.choice([2.0 ** -11, 0.0009, -0.0009, 0.0, 2.0 ** -13]))
@@ -1561,8 +1611,26 @@ def extra_axes(R: Run, ns, rng, n):
         data = pl.reshape(((T,) if T else ()) + ((B,) if B else ()) + pl.shape[-2:])
         if B:
             data = np.moveaxis(data, -3, -1)  # (..., H, W, B)
-        oracle_pair(R, ns, case, dtype, np.ascontiguousarray(data), attr, dn, rng.choice(SCHEDS), rng.randrange(10**6),
-                    lead=lead, trail=trail, tag="axes")
+        res = oracle_pair(R, ns, case, dtype, np.ascontiguousarray(data), attr, dn, rng.choice(SCHEDS), rng.randrange(10**6),
+                          lead=lead, trail=trail, tag="axes")
+        # exact stream: the N-d model (Model/C13Nd: spatial axes at `ydim`, one chunk table per other axis)
+        isf = dtype.startswith("float")
+        if res is not None and not edge_zero(case).any() and not (isf and dn is not None and not (attr is not None and eqv(dn, attr))):
+            kind, lo = DTYPES[dtype]
+            sg, dg, S = geoboxes(ns, case)
+            deps = real_deps(ns, sg, dg, case)
+            sn_m, dn_m = cast_nd(attr, dtype), cast_nd(dn if dn is not None else attr, dtype)
+            tabs = "/".join(list_s(t) for t in ([lead] if lead else []) + ([trail] if trail else []))
+            src_pl, out_pl = planes_of(data, lead, None if not trail else trail), planes_of(res[1], lead, trail)
+            # planes_of orders (band, time); the model wants row-major over (time, band)
+            if lead and trail:
+                nb, nt = sum(trail), sum(lead)
+                order = [b * nt + t for t in range(nt) for b in range(nb)]
+                src_pl, out_pl = src_pl[order], out_pl[order]
+            line = " ".join(["c13 nd", "1" if lead else "0", tabs or "-", "/".join(img_s(p_) for p_ in src_pl),
+                             common_line(case, S, kind, lo, sn_m, dn_m, deps_s(deps), np.zeros((0, 0)))])
+            got = "/".join(img_s(p_) for p_ in out_pl)
+            R.corr(line, lambda got=got: got, sig=f"nd|ydim={'1' if lead else '0'}|axes={int(bool(lead)) + int(bool(trail))}|{kind}")
 
 
 # ------------------------------------------------------------------ entry points
@@ -1640,7 +1708,7 @@ def run(R: Run):
     mark('extra_axes')
     joint_compute(R, ns, rng, R.pick(70, 600), dts)
     mark('joint_compute')
-    histories(R, ns, rng, R.pick(14, 120), dts)
+    histories(R, ns, rng, R.pick(12, 120), dts)
     mark('histories')
     cross_crs(R, ns, rng, R.pick(120, 1500))
     mark('cross_crs')
@@ -1648,7 +1716,7 @@ def run(R: Run):
     mark('zoom_stream')
     identity_corner(R, ns, rng, R.pick(100, 1200), dts)
     mark('identity_corner')
-    crs_churn(R, ns, rng, R.pick(150, 900))
+    crs_churn(R, ns, rng, R.pick(130, 900))
     mark('crs_churn')
 
     R.extra["stage_seconds"] = stage_t
@@ -1690,6 +1758,11 @@ def replay(R: Run, rec) -> int:
     if not cj:
         print(rec.get("broken"))
         return 1
+    if cj.get("kind") == "scale-snap":
+        scale_snap_probe(R, ns)
+        for f in R.oracle_failures:
+            print("FAIL:", f["key"], f["what"])
+        return 1 if R.oracle_failures else 0
     if cj.get("kind") == "identity":
         identity_one(R, ns, cj)
         for f in R.oracle_failures:
